@@ -35,6 +35,9 @@ var reviewedMapRanges = map[string][]string{
 	"codegen/service.Data.initUserTypeImports#‹*service.MethodData›.ErrorLocs":  {"call with unknown effects: goa.design/goa/v3/codegen/service.initLoc"}, // stores into a map keyed by path
 	// error text only: which pair of a dependency cycle is named
 	"eval.DSLContext.Roots#‹map[string][]eval.Root›": {"call with unknown effects: (goa.design/goa/v3/eval.Expression).EvalName", `returns a value that depends on the element visited: fmt.Errorf("dependency cycle: %s and %s depend on each other (directly or not)", root.EvalName(), other.EvalName())`},
+	// search of the reverse name table by value: the two name tables are kept inverse of each other (R02.1), so at
+	// most one key carries a given attribute name and "the first match" is the only match
+	"expr.MappedAttributeExpr.Delete#recv.reverseMap": {"returns a value that depends on the element visited: k"},
 	// debug printer, not reachable from Generate
 	"expr.AttributeExpr.debug#recv.Meta": {"call with unknown effects: fmt.Printf"},
 	// value conversion into a fresh map (map stores), recursion on values
